@@ -63,4 +63,4 @@ def gen(rng, tier):
 def run(tier, seed):
     return run_simple("C13", tier, seed, gen, TRUSTED,
                       "box seeds of every length 0..=128, kx and signing seeds, secret keys with every pattern of the clamped bits, every generated Ed25519 pair converted to X25519 with the consistency check base·sk' = pk' on the implementation; impl vs model vs Lean spec vs libsodium; distinct by (op, implementation answer)",
-                      ["dalek arithmetic modelled by Lean specs"])
+                      ["dalek arithmetic modelled by Lean specs"], concurrent=True)
